@@ -108,3 +108,14 @@ package core
 //@ func NewActionIDFromString(id) (a, err)
 //@   pure-result actionByName
 //@   ensures[base] err == nil ==> okAction(a) && a != ACTION_UNSUPPORTED
+
+// ---------------------------------------------------------------------------------------------
+// Ledger vocabulary shared by the receive-path contracts (C01, C02, C11)
+// ---------------------------------------------------------------------------------------------
+
+//@ macro orb() = core.ModuleAddress
+// Balances of a reachable ledger are never negative (x/bank invariant, assumed of the entry state and
+// proved to be preserved by every step orbiter performs).
+//@ macro bankNonneg(b) = forall a Addr, d string :: bal(b, a, d) >= 0
+// The orbiter account did not gain in any denomination other than x.
+//@ macro orbNoGainExcept(x) = forall d string :: d != x ==> bal(bank, orb(), d) <= bal(old(bank), orb(), d)
